@@ -328,6 +328,30 @@ def typeddict_inheritance(base_key, own_key, extra_key):
         e2e.unload(m)
 
 
+def typeddict_keys(names, opts):
+    """TypedDict output: whatever the options, the keys of the TypedDict are the wire names"""
+    doc = {"title": "Item", "type": "object", "properties": {n: {"type": "integer"} for n in names}}
+    g = e2e.generate(json.dumps(doc), kind="typing.TypedDict", **opts)
+    if g.timeout:
+        return "generate() does not terminate"
+    if not g.ok or e2e.parses(g.text):
+        return None
+    m, err = e2e.load_module(g.text, "typing.TypedDict")
+    try:
+        if err:
+            return None
+        C = getattr(m, "Item", None)
+        if C is None:
+            return None
+        keys = set(getattr(C, "__required_keys__", ())) | set(getattr(C, "__optional_keys__", ()))
+        missing = [k for k in names if k not in keys]
+        if missing:
+            return f"TypedDict Item ({opts}) has keys {sorted(keys)}: no key for the wire names {missing}"
+        return None
+    finally:
+        e2e.unload(m)
+
+
 def discriminator_roundtrip(pname, declared, kind_out, opts):
     """a discriminated union whose discriminator property needs renaming; members declare the property or leave it to the generator"""
     def member(tag):
@@ -427,6 +451,20 @@ def falsify(ctx):
             why = typeddict_inheritance(base_key, own_key, extra_key)
             if why:
                 ctx.violation(f"td-inherit:{base_key}:{own_key}:{extra_key}", why, {"td_inherit": [base_key, own_key, extra_key], "why": why})
+    # the empty property name; TypedDict output without aliases (the keys must still be the wire names)
+    for kind_out in ("pydantic_v2.BaseModel", "pydantic.BaseModel"):
+        for names in (["", "plain"], ["plain", ""], ["", "field_"]):
+            ctx.count("eval_e2e")
+            ctx.nontrivial(("empty-name", tuple(names), kind_out))
+            why = e2e_roundtrip(ctx, names, kind_out, {})
+            if why:
+                ctx.violation(f"e2e:{kind_out}:{names!r}:None:{{}}", f"property names {names!r} ({kind_out}): {why}", {"names": names, "second": None, "kind": kind_out, "opts": {}, "why": why})
+    for opts in ({"no_alias": True}, {}, {"no_alias": True, "snake_case_field": True}):
+        ctx.count("eval_e2e")
+        ctx.nontrivial(("td-keys", json.dumps(opts, sort_keys=True)))
+        why = typeddict_keys(["foo-bar", "class", "plain", "fooBar"], opts)
+        if why:
+            ctx.violation(f"td-keys:{sorted(opts)}", why, {"td_keys": [["foo-bar", "class", "plain", "fooBar"], opts], "why": why})
     for pname in ("pet-type", "@type", "class", "_kind", "petType", "kind"):
         for declared in (False, True):
             for kind_out in ("pydantic_v2.BaseModel", "pydantic.BaseModel"):
@@ -460,6 +498,8 @@ def falsify(ctx):
 
 def replay_finding(ctx, f):
     r = f["replay"]
+    if "td_keys" in r:
+        return typeddict_keys(*r["td_keys"]) is not None
     if "td_inherit" in r:
         return typeddict_inheritance(*r["td_inherit"]) is not None
     if "disc" in r:
@@ -471,7 +511,9 @@ def replay_finding(ctx, f):
 
 def replay(ctx, payload):
     r = payload.get("replay", payload)
-    if "td_inherit" in r:
+    if "td_keys" in r:
+        why = typeddict_keys(*r["td_keys"])
+    elif "td_inherit" in r:
         why = typeddict_inheritance(*r["td_inherit"])
     elif "disc" in r:
         why = discriminator_roundtrip(*r["disc"])
